@@ -819,4 +819,153 @@ theorem length_lt_of_nodup_range {l : List Nat} {N : Nat} (hN : 0 < N) (hn : l.N
   simp only [List.length_cons, List.length_range] at this
   omega
 
+/-! ### the whole of `SearchPoints` for a filter query -/
+
+theorem pairwise_true {α : Type} (l : List α) : l.Pairwise (fun _ _ => True) := by
+  induction l with
+  | nil => exact List.Pairwise.nil
+  | cons a l ih => exact List.pairwise_cons.2 ⟨fun _ _ => trivial, ih⟩
+
+theorem filterMap_eq_map {α β : Type} (f : α → Option β) (g : α → β) (l : List α) (h : ∀ a ∈ l, f a = some (g a)) :
+    l.filterMap f = l.map g := by
+  induction l with
+  | nil => rfl
+  | cons a l ih =>
+    rw [List.filterMap_cons, h a (List.mem_cons_self ..), List.map_cons,
+      ih (fun b hb => h b (List.mem_cons_of_mem _ hb))]
+
+/-- the uuid stored under a live node id (proofs only) -/
+def uuidAt (p : Points) (n : Nat) : Uuid := (C01.AL.get p.nI n).getD ""
+
+theorem search_answer {lower : Bytes → Bytes} {cv : Conv} {st : State} (hI : Inv lower cv st)
+    (q : C02.Query) (hwf : q.wf (st.view cv) = true) (hv : q.Valid)
+    (rq : C06.Request) (hne : ∀ p ∈ rq.select, p ≠ [])
+    (rowSorter : List (C06.Row Unit) → List (C06.Row Unit)) (hsperm : ∀ l, (rowSorter l).Perm l)
+    (hssorted : ∀ l, (rowSorter l).Pairwise (fun a b => C06.sortCmp rq.sort a.data b.data ≤ 0))
+    (off lim : Nat) (ho : rq.off = off) (hl : rq.lim = lim) (hoff : off < 2 ^ 63) (hlim : lim < 2 ^ 63) :
+    ∃ rows : List (Nat × Uuid × C06.Doc),
+      searchPoints lower cv st q rq rowSorter =
+        .rows (((rows.drop off).take (if lim = 0 then rows.length else lim)).map fun r => (r.2.1, r.2.2)) ∧
+      (rows.map (·.2.1)).Nodup ∧
+      (∀ u, u ∈ rows.map (·.2.1) ↔ specMatches lower cv st.schema (C01.abs st.shard) q u) ∧
+      (∀ r ∈ rows, C01.AL.get st.shard.pts.nI r.1 = some r.2.1 ∧
+         C06.shape rq (selDoc cv (C01.AL.get st.shard.pts.nD r.1)) = .ok r.2.2) ∧
+      (rq.sort = [] → (rows.map (·.1)).Pairwise (· < ·)) ∧
+      (rq.sort ≠ [] → rows.Pairwise (fun a b => C06.sortCmp rq.sort a.2.2 b.2.2 ≤ 0)) := by
+  have hp := hI.store.pts
+  have hv2 := view_inv hI
+  -- C06 on the tree of C02 leaf answers
+  have hwfT := leavesWF_qtree lower (st.view cv) q
+  obtain ⟨rows0, hfull, hnd, hmem, hrow, hnosort, _, hsorted⟩ :=
+    C06.C06_answer (S := Unit) (fun _ _ => ()) (fun _ _ => True) id id (fun l => List.Perm.refl l)
+      (fun l => pairwise_true l) (fun l => List.Perm.refl l) (fun l => pairwise_true l) rq rowSorter hsperm hssorted
+      (selAt cv st) hne (qtree lower (st.view cv) q) hwfT
+  obtain ⟨_, _, hset, _, _, _⟩ :=
+    C06.C06_tree (S := Unit) (fun _ _ => ()) (fun _ _ => True) id id (fun l => List.Perm.refl l)
+      (fun l => pairwise_true l) (fun l => List.Perm.refl l) (fun l => pairwise_true l) (qtree lower (st.view cv) q) hwfT
+  have hres := evalTree_res_nil lower (st.view cv) (fun _ _ => ()) q
+  generalize hr : C06.evalTree (fun _ _ => ()) id id (qtree lower (st.view cv) q) = r at hfull hnosort hset hres
+  -- which node ids come back
+  have hin : ∀ n, C06.inSetB (qtree lower (st.view cv) q) n = true ↔
+      ∃ i : C02.Id, i.toNat = n ∧ q.sat lower (st.view cv) i := by
+    intro n
+    rw [inSet_iff]
+    constructor
+    · rintro ⟨i, hi, h⟩; exact ⟨i, hi, (C02.C02_tree lower hv2 q hwf hv i).1 h⟩
+    · rintro ⟨i, hi, h⟩; exact ⟨i, hi, (C02.C02_tree lower hv2 q hwf hv i).2 h⟩
+  have hlive : ∀ n, C06.inSetB (qtree lower (st.view cv) q) n = true → ∃ u, C01.AL.get st.shard.pts.nI n = some u := by
+    intro n h
+    obtain ⟨i, rfl, hs⟩ := (hin n).1 h
+    exact live_of_sat hI q hwf i hs
+  have hrowlive : ∀ row ∈ rows0, C01.AL.get st.shard.pts.nI row.id = some (uuidAt st.shard.pts row.id) := by
+    intro row hrw
+    obtain ⟨u, hu⟩ := hlive row.id ((hmem row.id).1 (List.mem_map.2 ⟨row, hrw, rfl⟩))
+    rw [hu]; simp [uuidAt, hu]
+  -- back-fill: every node id of the bitmap has a point
+  obtain ⟨unranked, hB, hasc, _, hBmem, _⟩ := C06.C06_backfill r (by rw [hres]; exact List.nodup_nil) (by rw [hres]; simp)
+  have hget : ∃ l, C01.getAll st.shard.pts ((C06.backfill r).map (·.id)) = .ok l := by
+    refine ⟨_, C01.getAll_eq st.shard.pts _ ?_⟩
+    intro n hn
+    obtain ⟨u, hu⟩ := hlive n ((hset n).1 ((hBmem n).1 hn))
+    rw [hu]; rfl
+  obtain ⟨gl, hgl⟩ := hget
+  -- the page
+  have hlen : rows0.length < 2 ^ 63 := by
+    have h1 : (rows0.map (·.id)).length < idBound := by
+      refine length_lt_of_nodup_range (by decide) hnd ?_
+      intro n hn
+      obtain ⟨u, hu⟩ := hlive n ((hmem n).1 hn)
+      have := hI.store.ctr.live_range n u hu
+      exact ⟨by omega, hI.liveBound n u hu⟩
+    simpa [idBound] using h1
+  have hpage := C06.C06_search_page (selAt cv st) rowSorter r rq rows0 hfull off lim ho hl hoff hlim hlen
+  let g : C06.Row Unit → Nat × Uuid × C06.Doc := fun row => (row.id, uuidAt st.shard.pts row.id, row.data)
+  refine ⟨rows0.map g, ?_, ?_, ?_, ?_, ?_, ?_⟩
+  · -- the answer
+    unfold searchPoints
+    simp only [hwf, Bool.not_true, Bool.false_eq_true, if_false, searchIndex, hr, hgl]
+    cases hsp : C06.searchPoints (selAt cv st) rowSorter true r rq with
+    | selectError => rw [hsp] at hpage; cases hpage
+    | slicePanic => rw [hsp] at hpage; cases hpage
+    | rows pg =>
+      rw [hsp] at hpage
+      simp only [C06.outcomePage, Option.some.injEq] at hpage
+      subst hpage
+      simp only [List.length_map]
+      rw [← List.map_drop, ← List.map_take, List.map_map]
+      congr 1
+      apply filterMap_eq_map
+      intro row hrw
+      have hrw0 : row ∈ rows0 := List.mem_of_mem_drop (List.mem_of_mem_take hrw)
+      rw [hrowlive row hrw0]; rfl
+  · -- one row per uuid
+    have : (rows0.map g).map (·.2.1) = (rows0.map (·.id)).map (uuidAt st.shard.pts) := by
+      simp [g, List.map_map, Function.comp_def]
+    rw [this]
+    apply C01.nodup_map_of_inj_on _ _ hnd
+    intro a ha b hb hab
+    obtain ⟨ra, hra, rfl⟩ := List.mem_map.1 ha
+    obtain ⟨rb, hrb, rfl⟩ := List.mem_map.1 hb
+    have h1 := hrowlive ra hra
+    have h2 := hrowlive rb hrb
+    rw [hab] at h1
+    have k1 := (hp.bij _ _).mpr h1
+    have k2 := (hp.bij _ _).mpr h2
+    rw [k1] at k2; exact Option.some.inj k2
+  · -- exactly the points of the reference map that satisfy the query
+    intro u
+    rw [specMatches_iff hI]
+    simp only [List.map_map, List.mem_map, Function.comp_def, g]
+    constructor
+    · rintro ⟨row, hrw, rfl⟩
+      obtain ⟨i, hi, hs⟩ := (hin row.id).1 ((hmem row.id).1 (List.mem_map.2 ⟨row, hrw, rfl⟩))
+      exact ⟨i, by rw [hi]; exact hrowlive row hrw, hs⟩
+    · rintro ⟨i, hlv, hs⟩
+      obtain ⟨row, hrw, hid⟩ := List.mem_map.1 ((hmem i.toNat).2 ((hin i.toNat).2 ⟨i, rfl, hs⟩))
+      refine ⟨row, hrw, ?_⟩
+      have := hrowlive row hrw
+      have hid' : row.id = i.toNat := hid
+      rw [← hid'] at hlv
+      rw [hlv] at this
+      exact (Option.some.inj this).symm
+  · -- each row: its uuid, and the selected data of its stored document
+    intro x hx
+    obtain ⟨row, hrw, rfl⟩ := List.mem_map.1 hx
+    exact ⟨hrowlive row hrw, (hrow row hrw).2⟩
+  · -- no sort keys: ascending node id
+    intro hs
+    have h1 := hnosort hs
+    rw [hB, hres] at h1
+    simp only [List.map_nil, List.nil_append, List.map_map, Function.comp_def] at h1
+    have h2 : rows0.map (·.id) = unranked := by
+      have := congrArg (List.map Prod.fst) h1
+      simpa [List.map_map, Function.comp_def] using this
+    simp only [List.map_map, Function.comp_def, g]
+    have h3 : (rows0.map fun x => x.id) = unranked := h2
+    rw [h3]; exact hasc
+  · -- sort keys: ordered by the comparator
+    intro hs
+    rw [List.pairwise_map]
+    exact hsorted hs
+
 end Sema.Compose
